@@ -106,7 +106,7 @@ fn replay_cmd(path: &str) -> ! {
 			let flavour: interp::Flavour = serde_json::from_value(r["flavour"].clone()).expect("flavour");
 			let write = r["write"].as_bool().unwrap_or(true);
 			println!("case: {} {} leaf-states(0 free,1 read-held,2 write-held by another thread)={:?}", spec.describe(), flavour.api(write), assign);
-			let poisoned = r["poisoned"].as_bool().unwrap_or(false);
+			let poisoned = r["poisoned"].as_u64().map(|v| v as u8).unwrap_or(r["poisoned"].as_bool().unwrap_or(false) as u8);
 			let o = seqchecks::run_acq_case(&spec, &assign, flavour, write, poisoned, true);
 			for l in &o.trace {
 				println!("  {}", l);
